@@ -41,6 +41,7 @@ def T(s):
 G = {"op": "G"}
 ME = {"op": "Me"}
 RESET, INC, SHOW = {"op": "Reset"}, {"op": "Inc"}, {"op": "Show"}
+COPY = {"op": "Copy"}   # the counter object is built from the mutable object all renders share (spec: sh.glob)
 ESC, AUTOEND = {"op": "Esc"}, {"op": "AutoEnd"}
 IDX, LOOPEND = {"op": "Idx"}, {"op": "LoopEnd"}
 CALL = {"op": "Call"}
@@ -73,9 +74,21 @@ COUNTER = {
     "cycler": {"Reset": "{% set cy = cycler(0, 1, 2, 3, 4, 5, 6, 7, 8, 9) %}", "Inc": "{% set _d = cy.next() %}",
                "Show": "{{ cy.current }}"},
     "plain": {"Reset": "{% set c = 0 %}", "Inc": "{% set c = c + 1 %}", "Show": "{{ c }}"},
+    # objects the runtime builds from a mutable object shared by all renders (gd: a dict {"c": g0}, gl: a list of
+    # g0 items; environment globals or the same objects passed to every render): Copy builds the render's own object
+    "nsg": {"Reset": "{% set ns = namespace(c=0) %}", "Copy": "{% set ns = namespace(gd) %}",
+            "Inc": "{% set ns.c = ns.c + 1 %}", "Show": "{{ ns.c }}"},
+    "nsg2": {"Reset": "{% set ns = namespace() %}{% set ns.c = 0 %}", "Copy": "{% set ns = namespace(gd, z=1) %}",
+             "Inc": "{% set ns.c = ns.c + 1 %}", "Show": "{{ ns.c }}"},
+    "dictg": {"Reset": "{% set d = dict(c=0) %}", "Copy": "{% set d = dict(gd) %}",
+              "Inc": "{% set _d = d.update(c=d.c + 1) %}", "Show": "{{ d.c }}"},
+    "listg": {"Reset": "{% set l = [] %}", "Copy": "{% set l = gl|list %}",
+              "Inc": "{% set _d = l.append(0) %}", "Show": "{{ l|length }}"},
     # inside a shared (included) template: whatever form the including task uses
-    "any": {"Show": "{{ ns.c if ns is defined else (cy.current if cy is defined else c) }}"},
+    "any": {"Show": "{{ ns.c if ns is defined else (cy.current if cy is defined else "
+                    "(d.c if d is defined else (l|length if l is defined else c))) }}"},
 }
+GVARIANTS = ("nsg", "nsg2", "dictg", "listg")
 
 
 def unparse(ops, variant):
@@ -88,7 +101,7 @@ def unparse(ops, variant):
             out.append("{{ gate() }}")
         elif k == "Me":
             out.append("{{ me }}")
-        elif k in ("Reset", "Inc", "Show"):
+        elif k in ("Reset", "Inc", "Show", "Copy"):
             out.append(COUNTER[variant][k])
         elif k == "AutoSet":
             out.append("{% autoescape " + ("on" if o["b"] else "off") + " %}")
@@ -180,6 +193,14 @@ def core_scenarios():
         S.append({"cap": 50, "mods": {}, "tmpls": {}, "tasks": [
             task("A", [RESET, INC, G, SHOW, INC, G, SHOW], variant=v),
             task("B", [RESET, G, SHOW, INC, INC, INC, G, SHOW], variant=v, wrap=(v != "plain"))]})
+    # objects built from a mutable object all renders share (environment global / the same render argument)
+    for k, v in enumerate(GVARIANTS):
+        P = [COPY, INC, G, SHOW, ME]
+        S.append({"cap": 50, "mods": {}, "tmpls": {}, "g0": k % 3, "gsrc": ("env", "data")[k % 2],
+                  "tasks": [task("A", P, variant=v), task("B", P, variant=v)]})
+        S.append({"cap": 50, "mods": {}, "tmpls": {"I": [SHOW, G, ME]}, "g0": (k + 1) % 3, "gsrc": ("data", "env")[k % 2],
+                  "tasks": [task("A", [COPY, G, INC, INC, G, SHOW, RESET, SHOW], variant=v, wrap=(k % 2 == 0)),
+                            task("B", [RESET, INC, SHOW, COPY, INCL("I"), INC, SHOW], variant=GVARIANTS[(k + 1) % 4])]})
     # loop state
     S.append({"cap": 50, "mods": {}, "tmpls": {}, "tasks": [task("A", [LOOP(3), G, IDX, LOOPEND, T("a")]),
                                                               task("B", [LOOP(2), IDX, G, LOOPEND], wrap=True)]})
@@ -238,8 +259,8 @@ def random_scenario(rnd):
     tmpls = {"I": rnd.choice([[SHOW, G, ME], [ME, G], [T("i"), SHOW], [AUTO(True), G, ESC, AUTOEND], [ESC]])}
     tasks = []
     for ti in range(ntasks):
-        variant = rnd.choice(["ns", "cycler", "plain"])
-        prog = [RESET]
+        variant = rnd.choice(["ns", "cycler", "plain"] + list(GVARIANTS))
+        prog = [COPY if variant in GVARIANTS and rnd.random() < 0.7 else RESET]
         gates = [0]
 
         def gate():
@@ -252,7 +273,7 @@ def random_scenario(rnd):
         autos = 0
         for _ in range(rnd.randint(3, 7)):
             k = rnd.choice(["T", "G", "G", "Me", "Inc", "Show", "Imp", "Call", "CallG", "CallG", "Str", "IncN", "Incl", "Loop",
-                            "Auto", "Esc"])
+                            "Auto", "Esc", "Copy"])
             if k == "T":
                 prog.append(T(rnd.choice("xyz")))
             elif k == "G":
@@ -264,6 +285,9 @@ def random_scenario(rnd):
                     prog.append(INC)
             elif k == "Show":
                 prog.append(SHOW)
+            elif k == "Copy":
+                if variant in GVARIANTS:
+                    prog += [COPY if rnd.random() < 0.7 else RESET, INC]
             elif k == "Imp" and depth == 0:
                 prog.append(IMP(rnd.choice(["M", "N"]), rnd.random() < 0.25))
                 imported = True
@@ -308,7 +332,8 @@ def random_scenario(rnd):
                           wrap=(variant != "plain" and rnd.random() < 0.3), html=rnd.random() < 0.4))
     if rnd.random() < 0.3:  # two tasks render the same template object
         tasks[1] = dict(tasks[0], me="B")
-    return {"cap": rnd.choice([0, 1, 1, 50]), "mods": mods, "tmpls": tmpls, "tasks": tasks}
+    return {"cap": rnd.choice([0, 1, 1, 50]), "mods": mods, "tmpls": tmpls, "tasks": tasks,
+            "g0": rnd.choice([0, 1, 2]), "gsrc": rnd.choice(["env", "data"])}
 
 
 def steps_bound(sc, t):
@@ -354,7 +379,7 @@ def max_objects(sc):
 
 def spec_view(sc):
     """What TLC sees of a scenario (the concrete rendering variants are the harness' business)."""
-    return {"cap": sc["cap"], "mods": sc["mods"], "tmpls": sc["tmpls"], "macs": macs(sc),
+    return {"cap": sc["cap"], "mods": sc["mods"], "tmpls": sc["tmpls"], "macs": macs(sc), "g0": sc.get("g0", 0),
             "tasks": [{"me": t["me"], "tg": t["tg"], "html": bool(t.get("html")),
                        "prog": ([{"op": "Get", "t": "base"}] if t.get("wrap") else []) + t["prog"]}
                       for t in sc["tasks"]]}
@@ -405,6 +430,7 @@ class World:
                                autoescape=select_autoescape(enabled_extensions=("html",), default=False,
                                                             default_for_string=False))
         self.env.globals["gate"] = gate
+        self.shared_objects()
         self.main_src = mains
         # tasks with the same source and template globals render the *same* Template object
         self.main_key = []
@@ -417,10 +443,22 @@ class World:
             self.main_key.append(key)
         self.main_tmpl = {}
 
+    def shared_objects(self):
+        """The mutable objects all renders of one schedule share (spec: sh.glob = g0), new for every schedule."""
+        g0 = self.sc.get("g0", 0)
+        self.gd, self.gl = {"c": g0}, [0] * g0
+        if self.sc.get("gsrc", "env") == "env":
+            self.env.globals.update(gd=self.gd, gl=self.gl)
+
+    def shared_untouched(self):
+        g0 = self.sc.get("g0", 0)
+        return self.gd == {"c": g0} and self.gl == [0] * g0
+
     def fresh(self):
         if self.env.cache is not None:
             self.env.cache.clear()
         self.main_tmpl = {}
+        self.shared_objects()
 
     def coro(self, i):
         t = self.sc["tasks"][i]
@@ -430,7 +468,8 @@ class World:
             g = {"tg": t["tg"]} if t["tg"] else {}
             tmpl = self.main_tmpl[key] = self.env.template_class.from_code(
                 self.env, self.main_code[key], self.env.make_globals(g), None)
-        return tmpl.render_async(me=t["me"], lt="<", on=True, off=False)
+        data = {"gd": self.gd, "gl": self.gl} if self.sc.get("gsrc", "env") == "data" else {}
+        return tmpl.render_async(me=t["me"], lt="<", on=True, off=False, **data)
 
 
 def step(coro):
@@ -534,16 +573,17 @@ def run_schedule_asyncio(world, sched):
 # TLC
 # ---------------------------------------------------------------------------
 
-def cfg(placeholder, cachectx, maxobj, invs=True):
+def cfg(placeholder, cachectx, maxobj, invs=True, aliascopy=False):
     s = f"""CONSTANTS
   Placeholder = {"TRUE" if placeholder else "FALSE"}
   CacheCtx = {"TRUE" if cachectx else "FALSE"}
+  AliasCopy = {"TRUE" if aliascopy else "FALSE"}
   MaxObj = {maxobj}
 SPECIFICATION Spec
 """
     if invs:
         s += ("INVARIANT C37_OutputsAsIfAlone\nINVARIANT C37_PrefixAsIfAlone\nINVARIANT C37_CacheContextFree\n"
-              "INVARIANT C37_CacheComplete\nINVARIANT C37_TemplateCacheBound\n")
+              "INVARIANT C37_CacheComplete\nINVARIANT C37_TemplateCacheBound\nINVARIANT C37_SharedObjectUntouched\n")
     return s
 
 
@@ -577,6 +617,8 @@ def run(ck):
                      timeout=3000)
     f2 = pool.submit(core.run_tlc, PID, "AsyncConc", cfg(False, True, maxobj), workers=3, env=envc, name="self_cachectx",
                      timeout=3000)
+    f3 = pool.submit(core.run_tlc, PID, "AsyncConc", cfg(False, False, maxobj, aliascopy=True), workers=3, env=envc,
+                     name="self_aliascopy", timeout=3000)
 
     # isolated renders of every task (the property's own reference point)
     worlds = [World(sc) for sc in S]
@@ -587,8 +629,8 @@ def run(ck):
     lines = sorted(set(x for x in r.printed() if x.startswith("{")))
     if not lines:
         raise core.MachineryError("AsyncConc.tla printed no schedules")
-    r1, r2 = f1.result(), f2.result()
-    for rr, nm in ((r1, "Placeholder"), (r2, "CacheCtx")):
+    r1, r2, r3 = f1.result(), f2.result(), f3.result()
+    for rr, nm in ((r1, "Placeholder"), (r2, "CacheCtx"), (r3, "AliasCopy")):
         ck.add_tlc(rr, f"AsyncConc self-test, mutant design {nm} (must be refuted)", expect_ok=False)
         ck.extra[f"selftest_mutant_design_{nm}_refuted_by_TLC"] = bool(rr.invariant_violated)
         if not rr.invariant_violated:
@@ -615,6 +657,15 @@ def run(ck):
         nsched += 1
         got, desync = run_schedule(w, sched)
         desyncs += desync
+        if not w.shared_untouched():  # C37_SharedObjectUntouched on the engine
+            shared, mains = sources(sc)
+            ck.violation(
+                {"kind": "shared-object-written", "scenario": sc, "sched": sched, "task": 1, "gd": w.gd, "gl": w.gl,
+                 "main": mains, "shared": shared},
+                f"the renders wrote the object they share: gd={w.gd!r} gl={w.gl!r} (initially c={sc.get('g0', 0)}) after "
+                f"schedule {sched} of templates {mains} (objects from {sc.get('gsrc', 'env')})",
+                {"kind": "shared-object-written", "variants": sorted({t['variant'] for t in sc['tasks']})},
+            )
         runs = [("driver", got)]
         if rnd.random() < (0.08 if quick else 0.03):
             runs.append(("asyncio", run_schedule_asyncio(w, sched)))
